@@ -141,7 +141,7 @@ class _GhostResult:
         raise Unsupported(f'the result list is used through .{name} (outside the loop contract)')
 
 
-@harness('NC1', targets='kopf._cogs.clients.fetching.list_objs', props=['C19', 'C12', 'C03'],
+@harness('NC1', targets='kopf._cogs.clients.fetching.list_objs', props=['C19', 'C12', 'C03', 'C02', 'C14', 'C05', 'C16'],
          clauses=['one_list_request', 'every_item_returned_in_order', 'kind_apiversion_filled_where_missing',
                   'nothing_without_items', 'resource_version_of_the_list', 'failures_propagate'],
          canaries=['canary.never_fails', 'canary.always_versioned', 'canary.kind_always_filled'],
